@@ -47,6 +47,6 @@ def h_rest_log_dag_scheduler_node_go : Nat := 0xd42b32c666181e44
 def h_rest_log_dag_executor_command_go : Nat := 0x9e6d29595f3ee3ae
 
 /-- hash of the normalised skeleton of * (internal/util/utils.go) -/
-def h_rest_log_util_utils_go : Nat := 0x0ed6c520f1bfd84b
+def h_rest_log_util_utils_go : Nat := 0x1d9ed057d15280b3
 
 end BdModel.Canon.Log
